@@ -203,6 +203,7 @@ fn godepth(out: &mut Out, id: u64, case: &Value) {
     } else { Value::Null };
     let has2 = !cert2.is_null();
     out.emit(&json!({"c": id, "ev": "godepth", "cert": case.get("cert").cloned().unwrap_or(json!({"m": "", "r": []})), "n": mate_n,
+                     "certd": case.get("certd").cloned().unwrap_or(json!([])), "nd": u64_of(case, "nd", 0),
                      "cert2": if has2 { cert2 } else { json!([]) }, "has2": has2, "fen": fen, "moves": moves, "d": d, "searchmoves": sm, "st": st, "score": score_json(score), "depth_seen": depth_seen,
                      "pv": pv, "best": best, "ponder": ponder, "evals": evals, "tree": tbl.len(), "warm": warmed, "ref": str_of(case, "ref"),
                      "contempt": verif::contempt(), "mode": str_of(case, "mode"), "flipof": u64_of(case, "flipof", 0), "cycle": strs(case, "cycle"), "pre": pre_n}));
@@ -243,6 +244,28 @@ pub fn run(args: &[String]) -> i32 {
                         o.insert("mode".to_string(), json!("mate"));
                         o.insert("noeval".to_string(), json!(true));
                         godepth(&mut out, id, &c2);
+                        // the other side of the same certificate: after the certified first move the defender is to move and is mated
+                        // within n - 1 further moves whatever it does; search that position to depth 2 (n - 1)
+                        if n >= 2 {
+                            let after = guarded(|| {
+                                let mut b = Bitboard::from_fen_string(&fen).expect("case FEN");
+                                let m = c2.get("cert").and_then(|c| c.get("m")).and_then(Value::as_str).unwrap_or("").to_string();
+                                b.make_uci(&m).ok().map(|_| Fen::from(&b).fen)
+                            });
+                            if let Ok(Some(after_fen)) = after {
+                                let mut c3 = case.clone();
+                                let o = c3.as_object_mut().expect("case object");
+                                o.insert("fen".to_string(), json!(after_fen));
+                                o.insert("n".to_string(), json!(0));
+                                o.insert("nd".to_string(), json!(n));
+                                o.insert("certd".to_string(), c2.get("cert").and_then(|c| c.get("r")).cloned().unwrap_or(json!([])));
+                                o.insert("d".to_string(), json!(2 * (n - 1)));
+                                o.insert("mode".to_string(), json!("mated"));
+                                o.insert("noeval".to_string(), json!(true));
+                                o.insert("warm".to_string(), json!([]));
+                                godepth(&mut out, id, &c3);
+                            }
+                        }
                     }
                     Ok(None) => out.emit(&json!({"c": id, "ev": "skipped", "fen": fen, "d": 0, "why": "the candidate search finds no forced mate in 3"})),
                     Err(m) => out.emit(&json!({"c": id, "ev": "panic", "during": "candidate mate search", "msg": m, "p": "C01"})),
